@@ -95,6 +95,10 @@ type Plural struct {
 type ParamDecl struct {
 	Name     string
 	Optional bool
+	// header style only: the declared type ("" prints as ?) and a default value in source form. Neither changes what
+	// the declaration means here: a param is required unless it is declared with @param?.
+	TypeSrc    string
+	DefaultSrc string
 }
 type Template struct {
 	Name        string // local name without the dot
@@ -435,10 +439,17 @@ func FileSrc(f *File, lay Layout, lines map[Node]int) string {
 		w.s("}\n")
 		if t.HeaderStyle {
 			for _, p := range t.Params {
+				ty := p.TypeSrc
+				if ty == "" {
+					ty = "?"
+				}
+				if p.DefaultSrc != "" {
+					ty += " = " + p.DefaultSrc
+				}
 				if p.Optional {
-					w.s("{@param? " + p.Name + ": ?}\n")
+					w.s("{@param? " + p.Name + ": " + ty + "}\n")
 				} else {
-					w.s("{@param " + p.Name + ": ?}\n")
+					w.s("{@param " + p.Name + ": " + ty + "}\n")
 				}
 			}
 		}
